@@ -297,6 +297,27 @@ fn eval_base_batch(gate: &G, consts: &[F], rows: &[Vec<F>], h: &HashOut<F>) -> R
     Ok((0..m).map(|i| (0..nc).map(|j| out[j * m + i]).collect()).collect())
 }
 
+/// builder configurations under which the in-circuit evaluator is exercised: circuit evaluators
+/// (and the builder helpers they call) branch on the configuration, not only on the gate:
+///  - PoseidonGate::eval_unfiltered_circuit: `num_routed_wires >= PoseidonMdsGate::num_wires()` (48 for
+///    D = 2) selects naive partial rounds vs the fast partial-round route;
+///  - Poseidon::mds_layer_circuit: the same test selects a PoseidonMdsGate vs inline rows;
+///  - CircuitBuilder::arithmetic: `use_base_arithmetic_gate` selects ArithmeticGate vs the extension gate;
+///  - the operations-per-gate packing of the arithmetic / extension gates depends on num_routed_wires.
+fn builder_configs() -> Vec<(&'static str, CircuitConfig)> {
+    let std = CircuitConfig::standard_recursion_config();
+    vec![
+        ("std-135/80", std.clone()),
+        ("routed37-135/37", CircuitConfig { num_routed_wires: 37, ..std.clone() }),
+        ("routed25-135/25", CircuitConfig { num_routed_wires: 25, ..std.clone() }),
+        ("nobase-135/80", CircuitConfig { use_base_arithmetic_gate: false, ..std }),
+    ]
+}
+
+fn short_id(id: &str) -> String {
+    id.split(|c: char| c == '{' || c == '<' || c == ' ' || c == '(').next().unwrap_or("").to_string()
+}
+
 /// a circuit that evaluates `eval_unfiltered_circuit` on virtual targets
 struct EvalCircuit {
     data: CircuitData<F, C, D>,
@@ -316,13 +337,7 @@ fn build_eval_circuit(gate: &G, config: CircuitConfig) -> Result<EvalCircuit, St
             &mut builder,
             EvaluationTargets { local_constants: &consts_t, local_wires: &wires_t, public_inputs_hash: &hash_t },
         );
-        // register the results so that nothing is optimised away, then build without the
-        // (expensive, irrelevant) commitment to the constants and sigmas
-        for e in &evals_t {
-            for t in e.0 {
-                builder.register_public_input(t);
-            }
-        }
+        // build without the (expensive, irrelevant) commitment to the constants and sigmas
         let data = builder.build_with_options::<C>(false);
         EvalCircuit { data, wires_t, consts_t, hash_t, evals_t }
     })
@@ -423,17 +438,27 @@ fn check_entry(e: &Value, idx: usize, o: &Opts, log: &mut Option<NdJson>, tally:
     let mut written_seen: Option<Vec<usize>> = None;
     let mut unpinned_delegated = 0usize;
     let mut max_measured_degree = 0usize;
-    let circuit = if o.circuit {
-        match build_eval_circuit(&gate, CircuitConfig::standard_recursion_config()) {
-            Ok(c) => Some(c),
-            Err(p) => {
-                panics.push(json!({"where": "eval_unfiltered_circuit/build", "msg": p}));
-                None
+    let mut circuits: Vec<(&'static str, EvalCircuit)> = vec![];
+    let mut circuit_info: Vec<Value> = vec![];
+    if o.circuit {
+        for (name, cfg) in builder_configs() {
+            // the evaluator works on virtual targets, so the gate's own layout need not fit the
+            // configuration: nothing is skipped; a failing build is reported
+            match build_eval_circuit(&gate, cfg) {
+                Ok(c) => {
+                    let mut ids: Vec<String> = c.data.common.gates.iter().map(|g| short_id(&g.0.id())).collect();
+                    ids.sort();
+                    ids.dedup();
+                    circuit_info.push(json!({"cfg": name, "gates": ids, "rows": c.data.common.degree()}));
+                    circuits.push((name, c));
+                }
+                Err(p) => {
+                    circuit_info.push(json!({"cfg": name, "build_panic": p}));
+                    panics.push(json!({"where": format!("eval_unfiltered_circuit/build under {name}"), "msg": p}));
+                }
             }
         }
-    } else {
-        None
-    };
+    }
     let mut circuit_budget = o.circuit_rows;
 
     for r in 0..o.rows {
@@ -574,7 +599,7 @@ fn check_entry(e: &Value, idx: usize, o: &Opts, log: &mut Option<NdJson>, tally:
             Err(p) => push_cap(&mut panics, json!({"where": "eval_unfiltered_base_batch(1)", "msg": p})),
         }
         // in-circuit evaluator: honest row, one perturbation, one random base row, one random extension row
-        if let Some(ec) = &circuit {
+        if !circuits.is_empty() {
             let mut picks: Vec<(Vec<FE>, Vec<FE>)> = vec![];
             if circuit_budget > 0 {
                 picks.push((cext.clone(), emb(&rows[0])));
@@ -592,18 +617,20 @@ fn check_entry(e: &Value, idx: usize, o: &Opts, log: &mut Option<NdJson>, tally:
                 }
                 circuit_budget -= 1;
                 let native = eval_ext(&gate, &cc, &ww, &h);
-                let inc = eval_circuit(ec, &cc, &ww, &h);
-                tally.circuit_evals += 1;
-                match (native, inc) {
-                    (Ok(a), Ok(b)) => {
-                        if a != b {
-                            let j = a.iter().zip(b.iter()).position(|(x, y)| x != y);
-                            push_cap(&mut viol, json!({"key": format!("C07/evaluators/{kind}"), "detail": "in-circuit evaluator differs from the extension evaluator on identical inputs",
-                                "lens": [a.len(), b.len()], "first_difference": j,
-                                "wires": ww.iter().map(fe_json).collect::<Vec<_>>(), "consts": cc.iter().map(fe_json).collect::<Vec<_>>()}));
+                for (cfg_name, ec) in &circuits {
+                    let inc = eval_circuit(ec, &cc, &ww, &h);
+                    tally.circuit_evals += 1;
+                    match (&native, inc) {
+                        (Ok(a), Ok(b)) => {
+                            if *a != b {
+                                let j = a.iter().zip(b.iter()).position(|(x, y)| x != y);
+                                push_cap(&mut viol, json!({"key": format!("C07/evaluators/{kind}"), "detail": "in-circuit evaluator differs from the extension evaluator on identical inputs",
+                                    "builder_config": cfg_name, "lens": [a.len(), b.len()], "first_difference": j,
+                                    "wires": ww.iter().map(fe_json).collect::<Vec<_>>(), "consts": cc.iter().map(fe_json).collect::<Vec<_>>()}));
+                            }
                         }
+                        (a, b) => push_cap(&mut panics, json!({"where": format!("in-circuit evaluation under {cfg_name}"), "native": a.clone().err(), "circuit": b.err()})),
                     }
-                    (a, b) => push_cap(&mut panics, json!({"where": "in-circuit evaluation", "native": a.err(), "circuit": b.err()})),
                 }
             }
         }
@@ -672,7 +699,7 @@ fn check_entry(e: &Value, idx: usize, o: &Opts, log: &mut Option<NdJson>, tally:
         // nothing to sabotage on gates without constraints
     }
     json!({"gate": g, "id": gate.0.id(), "declared": {"num_wires": nw, "num_constants": nc, "num_constraints": ncon, "degree": deg},
-           "written": written_seen, "measured_degree": max_measured_degree, "delegated_unpinned": unpinned_delegated,
+           "written": written_seen, "circuits": circuit_info, "measured_degree": max_measured_degree, "delegated_unpinned": unpinned_delegated,
            "violations": viol, "drift": drift, "panics": panics})
 }
 
